@@ -349,6 +349,21 @@ func c18Example(name string) (*c18Native, error) {
 			bgp.NewFlowSpecComponent(bgp.FLOW_SPEC_TYPE_IP_PROTO, []*bgp.FlowSpecComponentItem{bgp.NewFlowSpecComponentItem(bgp.DEC_NUM_OP_EQ, 6)}),
 			bgp.NewFlowSpecComponent(bgp.FLOW_SPEC_TYPE_TCP_FLAG, []*bgp.FlowSpecComponentItem{bgp.NewFlowSpecComponentItem(bgp.BITMASK_FLAG_OP_MATCH, 0x12)})})
 		return c18NlriOf(bgp.RF_FS_IPv4_UC)(c18ReparseNlri(bgp.RF_FS_IPv4_UC, n, err))
+	case "nlri:flowspec-wide-parsed":
+		// dst-port = 80 with a two-octet operand (operator 0x91): valid, not minimal
+		return c18NlriOf(bgp.RF_FS_IPv4_UC)(bgp.NLRIFromSlice(bgp.RF_FS_IPv4_UC, []byte{0x04, 0x05, 0x91, 0x00, 0x50}))
+	case "nlri:flowspec6-wide-parsed":
+		// flow label = 0xfffff with an eight-octet operand (operator 0xb1)
+		return c18NlriOf(bgp.RF_FS_IPv6_UC)(bgp.NLRIFromSlice(bgp.RF_FS_IPv6_UC, []byte{0x0a, 0x0d, 0xb1, 0, 0, 0, 0, 0, 0x0f, 0xff, 0xff}))
+	case "nlri:prefix-hostbits-parsed":
+		// 10.1.255.0/20 as received with the bits behind the prefix length set in the last octet
+		return c18NlriOf(bgp.RF_IPv4_UC)(bgp.NLRIFromSlice(bgp.RF_IPv4_UC, []byte{0x14, 0x0a, 0x01, 0xff}))
+	case "nlri:vpn-hostbits-parsed":
+		n, err := bgp.NewLabeledVPNIPAddrPrefix(netip.MustParsePrefix("10.1.255.3/20"), *bgp.NewMPLSLabelStack(16), rd)
+		return c18NlriOf(bgp.RF_IPv4_VPN)(c18ReparseNlri(bgp.RF_IPv4_VPN, n, err))
+	case "nlri:labeled-two-labels-parsed":
+		n, err := bgp.NewLabeledIPAddrPrefix(netip.MustParsePrefix("10.1.2.0/24"), *bgp.NewMPLSLabelStack(16, 17))
+		return c18NlriOf(bgp.RF_IPv4_MPLS)(c18ReparseNlri(bgp.RF_IPv4_MPLS, n, err))
 	case "nlri:mup-t1st-parsed":
 		sa := v4("10.0.0.3")
 		return c18NlriOf(bgp.RF_MUP_IPv4)(c18ReparseNlri(bgp.RF_MUP_IPv4,
